@@ -25,7 +25,7 @@ HARNESS = os.path.join(ROOT, "harness/c10/zz_verif_c10_test.go")
 PKG = "./internal/index/manager/"
 RUN = os.path.join(BUILD, "run", "c10")
 TAGDEFS = ['cdata:"a"', 'cdata:"bb"', 'cdata:"c"']
-GEN_VERSION = 5
+GEN_VERSION = 6
 KF_REFETCH = "view-refetch-empty"
 
 
@@ -74,6 +74,26 @@ def gen_scenario(rng, name, big=False):
         else:
             script.append([k])
     return {"name": name, "caps": caps, "script": script, "tags": TAGDEFS[:rng.randint(0, 3)] if style < 0.75 else TAGDEFS, "probe": nflows + 2, "bad": bad}
+
+
+def gen_conv_scenario(rng, name):
+    """Histories with a converter executable: a tag carries the converter, converter jobs hold the index list; the
+    converter is detached / removed / re-added while its job is parked. Not in the Coq model (direct oracles only)."""
+    sc = gen_scenario(rng, name)
+    sc["conv"], sc["bad"], sc["tags"] = True, [], TAGDEFS[:rng.randint(0, 1)]
+    sc["caps"] = [c if c else [[0, 1]] for c in sc["caps"]]
+    script = [["import", 1], ["step", 0], ["step", 0], ["convtag"], ["step", 0], ["step", 0], ["convattach"]]
+    for _ in range(rng.randint(8, 30)):
+        k = rng.choices(["import", "step", "view", "release", "convattach", "convdetach", "convremove", "convadd", "tagdel", "tagupd"],
+                        weights=[0.16, 0.44, 0.08, 0.06, 0.07, 0.06, 0.05, 0.05, 0.01, 0.02])[0]
+        if k == "import":
+            script.append(["import", rng.choice([1, 1, 2])])
+        elif k in ("step", "release", "tagdel", "tagupd"):
+            script.append([k, rng.randrange(6)])
+        else:
+            script.append([k])
+    sc["script"] = script
+    return sc
 
 
 def fixed_scenarios():
@@ -363,7 +383,8 @@ def oracle_c13(sc, trace):
                 if f not in D:
                     fails.append(fail("C13", "deleted-in-use", i, "file %s is held by view %s but is not in the index directory" % (f, vid)))
         badnames = ["c%03d.pcap" % k for k in sc.get("bad", [])]
-        unexpected = [l for l in (s.get("log") or []) if not any(b in l for b in badnames)]
+        unexpected = [l for l in (s.get("log") or []) if not any(b in l for b in badnames)
+                      and not (sc.get("conv") and "onver" in l)]      # failed conversions (converter removed under its job) are C16's business
         if unexpected:
             fails.append(fail("C13", "job-failed", i, "manager log reports: %s" % unexpected[:2]))
         if st.get("readerr"):
@@ -450,6 +471,8 @@ def uid_map(steps):
 
 def model_case_text(sc, trace):
     lines = ["H " + sc["name"]]
+    if sc.get("conv"):
+        return lines[0] + "\n"          # converter jobs are not in the model
     for k, pk in enumerate(sc["caps"]):
         lines.append("cap %d %s" % (k, " ".join("%d:%d" % (f, n) for f, n in pk)))
     for k in sc.get("bad", []):
@@ -610,6 +633,10 @@ def history_features(sc, trace):
             feat.add("import-appends-during-merge")
         if act[:1] == ["import"] and len(st.get("queue", [])) > len(act[1]):
             feat.add("import-queued-behind-running-import")
+        if "convert" in (s.get("parked") or {}):
+            feat.add("converter-job-in-flight")
+            if act[:1] in (["convdetach"], ["convremove"]):
+                feat.add("converter-detached-or-removed-under-its-job")
         if act[:1] == ["view"]:
             feat.add("view-opened")
             if s.get("parked"):
@@ -701,9 +728,11 @@ def build_scenarios(tier, seed):
             sc = dict(sc, name="corpus-%s-%s" % (d, os.path.basename(fn)[:-5]))
             scs.append(sc)
     scs += fixed_scenarios()
-    n = 110 if tier == "quick" else 2500
+    n = 100 if tier == "quick" else 2500
     for i in range(n):
         scs.append(gen_scenario(rng, "h%04d" % i, big=(tier != "quick" and i % 4 == 0)))
+    for i in range(14 if tier == "quick" else 300):
+        scs.append(gen_conv_scenario(rng, "c%04d" % i))
     if tier != "quick":
         xs, info = exhaustive_scenarios(model_exe())
         scs += xs
@@ -765,7 +794,7 @@ def main_for(prop, tier, seed, replay=None):
             feats_all[f] = feats_all.get(f, 0) + 1
         if len(tr["steps"]) >= 6 and ("merge-completed" in feats or "view-opened-while-jobs-in-flight" in feats):
             nontrivial.add(json.dumps([sc["caps"], [s.get("act") for s in tr["steps"]]]))
-        mf, drift = compare_model(sc, tr, mouts[idx] if idx < len(mouts) else [], prop)
+        mf, drift = ([], []) if sc.get("conv") else compare_model(sc, tr, mouts[idx] if idx < len(mouts) else [], prop)
         drift_all += drift
         if replay:
             print("scenario:", json.dumps(sc))
